@@ -133,3 +133,18 @@ def build(X):
     """)
     impl = "impl Lowerer {\n" + dc.text + "\n}\n"
     return PRELUDE + model + SHIMS + impl + "\n} // verus!\nfn main() {}\n"
+
+
+# ----------------------------------------------------------------------------- replay on the real compiler
+def replay(failure):
+    """the RQ that the lowering produces for a corpus of programs is closed: every column id is defined once, before it is used, and is visible where it is used (tools/rqcheck.py)"""
+    import rqcheck
+    for r in rqcheck.sweep(failure.get("obligation", "lower_cols.DC1")):
+        if r["failing"]:
+            return r
+    return {"failing": False}
+
+
+def rerun(doc):
+    import rqcheck
+    return rqcheck.rerun(doc)
